@@ -513,6 +513,9 @@ def seq_contains(ex, st, seq, x, node):
 
 # ============================================================================ sequences
 def as_seq(ex, st, v, node):
+    from . import nplib as _np
+    if isinstance(v, _np.MaskedV):
+        return v.to_seq(ex, st)
     if isinstance(v, ty.OptV):
         ex.safety(st, "none-iterated", z3.Not(v.isnone), node)
         return as_seq(ex, st, v.val, node)
@@ -578,6 +581,9 @@ def array_binop(ex, st, op, a, b, node):
 
 
 def get_item(ex, st, cont, idx, node):
+    from . import nplib as _np
+    if isinstance(cont, _np.MaskedV):
+        cont = cont.to_seq(ex, st)
     if isinstance(cont, PyList) or isinstance(cont, (list, tuple)):
         items = cont.items if isinstance(cont, PyList) else list(cont)
         if isinstance(idx, slice):
@@ -837,6 +843,9 @@ def b_print(ex, st, args, kwargs, node):
 
 def b_len(ex, st, args, kwargs, node):
     (v,) = args
+    from . import nplib as _np
+    if isinstance(v, _np.MaskedV):
+        v = v.to_seq(ex, st)
     if isinstance(v, (PyList, PySet)):
         return _out(len(v.items), st)
     if isinstance(v, PyDict):
@@ -1404,6 +1413,11 @@ def m_np_maximum(ex, st, args, kwargs, node):
 
 def _np_minmax(ex, st, args, node, is_min):
     a, b = args
+    INF = float("inf")
+    for x, y in ((a, b), (b, a)):
+        # an infinite bound never wins a minimum (resp. a minus-infinite one a maximum)
+        if isinstance(y, float) and ((is_min and y == INF) or ((not is_min) and y == -INF)) and not isinstance(x, float):
+            return _out(x, st)
     if isinstance(a, (ty.SeqV, ty.MatV)) or isinstance(b, (ty.SeqV, ty.MatV)):
         from . import nplib
         return _out(nplib.elementwise2(ex, st, a, b, (lambda x, y: z3.If(x <= y, x, y)) if is_min else (lambda x, y: z3.If(x >= y, x, y)), node), st)
